@@ -180,6 +180,10 @@ class RunSchemaComponentChecks(Contract):
             added = list(cr.appended) if isinstance(cr, SymSeq) else None
             if oc == "returns":
                 out["no_result_invented_for_a_passing_component"] = added == []
+                # "returns" means "valid" only for a component that does not drop rows: with drop_invalid_rows the component returns
+                # the FILTERED table and reports nothing - and the table it returns is discarded here (C01 / C11: invalid rows survive)
+                if "drop_invalid_rows" in comp.field_types:
+                    out["a_returning_component_has_validated_every_row"] = Not(fld(comp, "drop_invalid_rows"))
             elif oc == "SchemaError":
                 exc = p.ghost["component_exc"]
                 ok = added is not None and len(added) == 1 and isinstance(added[0], Obj) and added[0].cls is CoreCheckResult
